@@ -47,9 +47,11 @@ TagsMatch(t, tg) == SeqToSet(tg) \subseteq SeqToSet(t.tags)
 
 -----------------------------------------------------------------------------
 \* route add <svc> <src> <dst> [weight w] [tags ..] [opts ..]
+\* "w <= 0 means no fixed weighting": a non-positive weight is the dynamic weight
+NormW(w) == IF QPos(w) THEN w ELSE QZero
 Add(t, s, src, d, w, tg, o) ==
     LET k == KeyOf(src)
-        x == Target(s, d, w, tg, o) IN
+        x == Target(s, d, NormW(w), tg, o) IN
     IF k \in DOMAIN t
     THEN IF \E i \in DOMAIN t[k] : SameTarget(t[k][i], x) THEN t
          ELSE [t EXCEPT ![k] = Append(@, x)]
@@ -77,7 +79,7 @@ Weigh(t, s, src, w, tg) ==
     ELSE LET m == Selected(t, k, s, tg) IN
          IF m = {} THEN t
          ELSE [t EXCEPT ![k] = [i \in DOMAIN @ |->
-                    IF i \in m THEN [@[i] EXCEPT !.fw = QDivInt(w, Cardinality(m))] ELSE @[i]]]
+                    IF i \in m THEN [@[i] EXCEPT !.fw = QDivInt(NormW(w), Cardinality(m))] ELSE @[i]]]
 
 -----------------------------------------------------------------------------
 \* the command universe; a command is a record so that it can be logged and replayed
@@ -153,7 +155,7 @@ NoDuplicateTarget == \A k \in DOMAIN tbl : \A i, j \in DOMAIN tbl[k] : SameTarge
 AddIdempotent == \A c \in AddCmds : Apply(Apply(tbl, c), c) = Apply(tbl, c)
 AddAccumulates == \A c \in AddCmds : LET t2 == Apply(tbl, c) k == KeyOf(c.src) IN
                      /\ k \in DOMAIN t2
-                     /\ \E i \in DOMAIN t2[k] : SameTarget(t2[k][i], Target(c.svc, c.dst, c.w, c.tags, c.opts))
+                     /\ \E i \in DOMAIN t2[k] : SameTarget(t2[k][i], Target(c.svc, c.dst, NormW(c.w), c.tags, c.opts))
                      /\ \A k2 \in DOMAIN tbl : k2 # k => t2[k2] = tbl[k2]
                      /\ k \in DOMAIN tbl => SubSeq(t2[k], 1, Len(tbl[k])) = tbl[k]
 DelExact == \A c \in DelCmds : LET t2 == Apply(tbl, c) IN
